@@ -16,13 +16,14 @@
 EXTENDS VStores
 
 PhysRefs  == {"ca:n1", "ca:n2", "sa:n1", "sa:n2", "tsa:n1"}
-PhysConts == {"missing", "empty", "leafOnly", "linkRoot", "rootAndEmptyFile", "unrelated", "root", "tsaRoot"}
+PhysConts == {"missing", "empty", "leafOnly", "linkRoot", "linkFileRoot", "rootAndEmptyFile", "unrelated", "root", "tsaRoot"}
    \* "empty": the directory exists and holds nothing; "leafOnly": it holds the signer's own end-entity certificate, which is
    \* neither a CA nor self-signed and therefore not a certificate a trust store may hold (C13)
    \* "linkRoot": the named store is a symbolic link onto a directory (elsewhere, or an unlisted store) that holds the signer's
    \* root: a store must be a real directory, a link is never followed (C13)
    \* "rootAndEmptyFile": the signer's root in one file and, next to it, a file that holds no certificate at all
-Unloadable(c) == c \in {"missing", "empty", "leafOnly", "linkRoot", "rootAndEmptyFile"}     \* either way the store fails to load as a whole
+   \* "linkFileRoot": a real directory whose only entry is a symbolic link onto a file (elsewhere) that holds the signer's root
+Unloadable(c) == c \in {"missing", "empty", "leafOnly", "linkRoot", "linkFileRoot", "rootAndEmptyFile"}     \* either way the store fails to load as a whole
 PType(r)  == CASE r \in {"ca:n1", "ca:n2"} -> "ca" [] r \in {"sa:n1", "sa:n2"} -> "sa" [] OTHER -> "tsa"
 PWanted(scheme) == IF scheme = "x509" THEN "ca" ELSE "sa"
 
@@ -54,7 +55,7 @@ D_Authentic(phys, v) ==
   (\E r \in W : phys[r] = "root") /\ (\A r \in W : ~Unloadable(phys[r]))
 
 (* refinement onto VStores: the abstract four-store view of one verification *)
-AbsCont(c) == IF c = "tsaRoot" THEN "unrelated" ELSE IF c \in {"empty", "leafOnly", "linkRoot", "rootAndEmptyFile"} THEN "missing" ELSE c
+AbsCont(c) == IF c = "tsaRoot" THEN "unrelated" ELSE IF c \in {"empty", "leafOnly", "linkRoot", "linkFileRoot", "rootAndEmptyFile"} THEN "missing" ELSE c
 AbsRef(v, r) == IF PType(r) = PWanted(v.scheme) THEN (IF r \in {"ca:n1", "sa:n1"} THEN "W1" ELSE "W2")
                 ELSE IF PType(r) = "tsa" THEN "T1" ELSE "O1"
 Abs(phys, v) ==
